@@ -38,7 +38,7 @@ fn cfg(tier: Tier) -> ProgCfg {
             abandon: 1,
             ..OpMix::NONE
         },
-        wmix: WriteMix { bad_decls: true, meta: true, by_hash: true },
+        wmix: WriteMix { bad_decls: true, meta: true, by_hash: true, rich_matching: false, interfere: false },
         sizes: SizeMix::Small,
         keys: (2, 6),
         blobs: (1, 3),
